@@ -78,7 +78,7 @@ LEVELS = {
         "technique": "Coq proof: order lemmas over the decode fold and the marshal model; differential correspondence with member-order observables",
     },
     "C02": {
-        "text": "Coq theorems: verification reads the presented step only through its signed content (five field values + env shadowing), so a signed step replaced by any step with the same signed content verifies under the public key with the pipeline env plus unrelated variables (signed_roundtrip, over the ideal scheme); payload independent of every map order; nil and empty env/plugins/matrix give the same signed value; canonical plugin sources are fixpoints. That re-parsing preserves the signed content is proved for the JSON leg of a command step: the decoder accepts the marshalled step (C09's command_roundtrip), equal marshallings have equal signed content (mj_command_signed_content), hence signature_survives_reparse: sign, marshal, re-read, verify = true for every command step satisfying cmd_ok. The whole chain (parse, sign, marshal, re-read, parse, verify) is executed in the model and compared with the library on the JSON leg, and the YAML leg and the per-step UnmarshalJSON entry are checked by oracle with real keys.",
+        "text": "Coq theorems: verification reads the presented step only through its signed content (five field values + env shadowing), so a signed step replaced by any step with the same signed content verifies under the public key with the pipeline env plus unrelated variables (signed_roundtrip, over the ideal scheme); payload independent of every map order; nil and empty env/plugins/matrix give the same signed value; canonical plugin sources are fixpoints. That re-parsing preserves the signed content is proved for the JSON leg of a command step: the decoder accepts the marshalled step (C09's command_roundtrip), equal marshallings have equal signed content (mj_command_signed_content), hence signature_survives_reparse: sign, marshal, re-read, verify = true for every command step satisfying cmd_ok, and signature_survives_yaml_reparse: the same through the value tree of the YAML marshalling (Model/MarshalYaml.v). The whole chain (parse, sign, marshal, re-read, parse, verify) is executed in the model and compared with the library on the JSON leg, and the YAML leg and the per-step UnmarshalJSON entry are checked by oracle with real keys.",
         "note": "trusted: ideal signature scheme; YAML emitter/scanner; composition with C09's fixpoint",
         "technique": "Coq proof: corollary of payload canonicity + verify-completeness; model-executed round trip in the correspondence",
     },
@@ -88,7 +88,7 @@ LEVELS = {
         "technique": "Coq-checked Tie over source-generated effect tables (finite computation) + race-detector correspondence rounds",
     },
     "C09": {
-        "text": "Coq: marshalling is deterministic (inlineFriendlyMarshalJSON gives the same JSON for every order of the inline map and of the field map, theorem over all contents); the re-read of marshalled JSON (objects as ordered maps, integral tokens re-typed) is modelled and the JSON-leg fixpoint is executed in the model and compared with the library on every generated document (first and second generation JSON); fixpoint example and the excluded class (empty key/label with a surviving alias, known finding F17) by computation; general fixpoint theorems: every pipeline satisfying the structural condition pipeline_fix_ok re-parses to a pipeline with the same marshalling (reparse_fixpoint), and every pipeline PARSED from a document with distinct keys and re-readable number tokens satisfies it outside three named classes (parse_result_fix_ok, parse_marshal_reparse); per-type round-trip theorems for signature, cache, matrix, plugins, command step, step. Both legs, the stand-alone decoders and byte-identical repeated marshalling are checked by oracle on the implementation.",
+        "text": "Coq: marshalling is deterministic (inlineFriendlyMarshalJSON gives the same JSON for every order of the inline map and of the field map, theorem over all contents); the re-read of marshalled JSON (objects as ordered maps, integral tokens re-typed) is modelled and the JSON-leg fixpoint is executed in the model and compared with the library on every generated document (first and second generation JSON); fixpoint example and the excluded class (empty key/label with a surviving alias, known finding F17) by computation; general fixpoint theorems: every pipeline satisfying the structural condition pipeline_fix_ok re-parses to a pipeline with the same marshalling (reparse_fixpoint), and every pipeline PARSED from a document with distinct keys and re-readable number tokens satisfies it outside three named classes (parse_result_fix_ok, parse_marshal_reparse); per-type round-trip theorems for signature, cache, matrix, plugins, command step, step. YAML leg: Model/MarshalYaml.v gives the value tree of yaml.Marshal's output (yaml.v3's struct encoder with its own omitempty rule, every MarshalYAML override, ordered maps in order); reparse_yaml_fixpoint, yaml_json_legs_agree (the two re-parses marshal identically: both formats carry the same data), parse_marshal_reparse_yaml and fix_ok_marshals_yaml (the encoder does not panic) hold for every pipeline satisfying pipeline_fix_ok and yaml_side_ok; the nil-versus-empty classes yaml_side_ok excludes are kept as counterexamples by computation. Both legs, the stand-alone decoders and byte-identical repeated marshalling are checked by oracle on the implementation.",
         "note": "trusted: text layer; known findings F7 (key `<<` through yaml.v3's emitter) and F17 are reported as KNOWN-FINDING",
         "technique": "Coq proof: permutation-invariance of the marshal model + model-executed re-parse in the correspondence; oracle on both legs",
     },
